@@ -47,7 +47,7 @@ def against_spec(who, ans, spec):
 class C11(Prop):
     pid = "C11"
     title = "pattern strings mean what the syntax documentation says"
-    thm_modules = ["PeliteModel.Thm.C11", "PeliteModel.Thm.C11Parse"]
+    thm_modules = ["PeliteModel.Thm.C11", "PeliteModel.Thm.C11Parse", "PeliteModel.Thm.C11Frame"]
     gens = gen_patsem.SEM_GENS + props_pattern.PARSE_GENS
     named_errors = set()     # the statement names no parse error kind: errors agree by class
 
